@@ -138,7 +138,7 @@ LEVELS = {
   'text': 'C01_pays_recorded_share (one bank transfer of exactly the sum over the caller\'s released entries, each valued at the batch\'s final rates; prev_hub_balance = balance - payout; zero share fails), C01_paid_once (no released claim is left for the caller: an immediate second withdrawal finds nothing), '
           'C01_order_independent (the release is a function of hub state, balance and time only; a withdrawal by v leaves every other user\'s released share unchanged), C01_sum_of_floors (users\' payouts of a side never exceed the side\'s allocation), '
           'C01_single_batch_side_alloc_le_arrived (for a one-batch release the allocation never exceeds the coins that arrived, under slashing and under unsolicited transfers alike). C01_fix_regression pins the repaired defect D1 (fix commit 94f82c5). '
-          'PARTIAL: for release groups of several batches the allocation bound is not proved; it is false for n>=3 with n*slashed >= 1e18 (C01_release_group_counterexample by decide; corpus/D5.ops on the real hub; known finding D5). The funding invariant over whole histories (hub balance >= sum of released claims) is checked by the oracle after every step, not proved.',
+          'PARTIAL: for release groups of several batches the allocation bound is not proved; it is false for n>=3 with n*slashed >= 1e18 (C01_release_group_counterexample by decide; corpus/D5.ops on the real hub; known finding D5). The funding invariant over whole histories (hub balance >= sum of released claims) is checked by the oracle after every step, not proved. C01_withdraw_tx_pays (whole transaction): a withdrawal the hub\'s handler accepts is always paid - the bank transfer it emits cannot fail, exactly the computed amount leaves the hub and prev_hub_balance is what remains; with C02_reserved (prev_hub_balance <= liquid balance in every reachable state) the release arithmetic never sees a negative arrival.',
   'note': 'Trusted: Lean kernel; hub model; E2. Known finding D5 (over-allocation by 1 unit for >=3 batches under a >99% slash of unbonding stake).',
   'technique': 'Lean 4 theorems on withdraw / release arithmetic; funding, payout, double-pay and unfunded-claim oracles on every implementation step',
  },
@@ -160,7 +160,7 @@ LEVELS = {
   'text': 'C09_undelegation_within_books (a true-ratio rate makes floor(requests*rate) <= booked stake, so the checked_sub of the batch undelegation cannot fail), C09_pick_validator_live (undelegation plan exists whenever claim <= delegated, via C12), '
           'C09_unbond_stsei_live (the hub side of a stSei unbond succeeds from: slashing check ok, monotone time, token registered, and - when the batch closes - the two premises above plus books <= delegations), the first unbond after the epoch undelegates (C08), withdrawal after the period (C01, under its side condition); '
           'C09_noninterference (whole transactions, every state): for every behaviour of the swap and oracle stubs and every calm top-level message - Bond, BondForStSei, the cw20 Send/SendFrom carrying Unbond or Convert, WithdrawUnbonded, CheckSlashing, every token message, ClaimRewards (examples in the file) - the transaction has the same outcome and leaves every contract, bank account, delegation, unbonding entry and pending reward the same; proved through the message executor (handle_stubs: one message; handle_calm: calm messages emit only calm messages, generated contract by contract; run_stubs: the queue). '
-          'PARTIAL (liveness clause only): the hub-side liveness lemmas are not composed with the token side into one system-level liveness theorem; known findings D6 (zero-backed pool blocks every undelegation) and D5.',
+          'C09_stsei_unbond_tx_succeeds (liveness as a whole transaction): from ANY state with an unpaused hub, both tokens registered, a consistent stSei ledger and the epoch period not yet passed, a holder\'s Send-to-hub Unbond of any positive part of its stSei balance succeeds end to end - token transfer, hub request recording, burn, slashing refresh - and records exactly that amount as the holder\'s claim (no premise about delegations, rates or other holders). With C14_claim_tx_succeeds and C01_withdraw_tx_pays these are the exit paths proved live as whole transactions; PARTIAL: the path through a batch undelegation and the bSei unbond are covered by the hub-side lemmas and the dry-run oracle, not by one composed theorem; known findings D6 (zero-backed pool blocks every undelegation) and D5.',
   'note': 'Trusted: Lean kernel; hub model; premises are invariants proved in C02/C03/C08. Gas exhaustion of long release loops cannot be exhibited. Known findings D5, D6.',
   'technique': 'Lean 4 system-level non-interference theorem over whole transactions + liveness lemmas per fault point; dry-run exits and stub-mode re-execution on cloned implementation states',
  },
